@@ -160,6 +160,75 @@ PRO = {
     "self._change_tracker.remove_reference_point(key='presolve')": ".delRef",
 }
 FIRST_ZERO = "if first_step:\n    %s = [(c, 0) for c, b in %s]" % (PCR, PCR)
+FIRST_ZERO_ELSE_CLAMP = (FIRST_ZERO + "\nelse:\n    max_back = max(int(self._wn.sim_time - self._wn._prev_sim_time) - 1, 0)\n"
+                         "    %s = [(c, min(max(b, 0), max_back)) for c, b in %s]" % (PCR, PCR))
+# canonical names of the locals of the method, in the order of their first assignment (a renaming of a local is harmless)
+CANON_LOCALS = [PCR, "max_back", "cnt", "old_time", "rules_to_run", "control", "backtrack"]
+CANON_FOR = ["rule", "rule_back"]
+
+
+def _alpha_rename(fn):
+    """rename the locals of the method to the canonical names by order of first assignment; comprehension variables to
+    c, b; lambda parameters to i; the `for` targets over the rules to rule, rule_back.  Returns the function unchanged when
+    the number of locals differs (the tables below then refuse what they do not know)."""
+    stores, fors = [], []
+
+    class V(ast.NodeVisitor):
+        def visit_If(self, node):
+            if ast.unparse(node.test).startswith("logger.getEffectiveLevel()"):
+                return
+            self.generic_visit(node)
+
+        def visit_Lambda(self, node):
+            return
+
+        def visit_ListComp(self, node):
+            return
+
+        def visit_For(self, node):
+            for n in ast.walk(node.target):
+                if isinstance(n, ast.Name) and n.id not in fors:
+                    fors.append(n.id)
+            for st in node.body:
+                self.visit(st)
+
+        def visit_Name(self, node):
+            if isinstance(node.ctx, ast.Store) and node.id not in stores and node.id not in fors:
+                stores.append(node.id)
+
+    for st in fn.body:
+        V().visit(st)
+    if len(stores) != len(CANON_LOCALS) or len(fors) != len(CANON_FOR):
+        return fn
+    ren = dict(zip(stores, CANON_LOCALS))
+    ren.update(zip(fors, CANON_FOR))
+
+    class R(ast.NodeTransformer):
+        def visit_Name(self, node):
+            return ast.copy_location(ast.Name(id=ren.get(node.id, node.id), ctx=node.ctx), node)
+
+        def visit_Lambda(self, node):
+            if len(node.args.args) == 1:
+                old = node.args.args[0].arg
+                node.args.args[0].arg = "i"
+                for n in ast.walk(node.body):
+                    if isinstance(n, ast.Name) and n.id == old:
+                        n.id = "i"
+            self.generic_visit(node)
+            return node
+
+        def visit_ListComp(self, node):
+            if len(node.generators) == 1 and isinstance(node.generators[0].target, ast.Tuple) and len(node.generators[0].target.elts) == 2:
+                olds = [e.id for e in node.generators[0].target.elts if isinstance(e, ast.Name)]
+                if len(olds) == 2:
+                    m = dict(zip(olds, ["c", "b"]))
+                    for n in ast.walk(node):
+                        if isinstance(n, ast.Name) and n.id in m:
+                            n.id = m[n.id]
+            self.generic_visit(node)
+            return node
+
+    return ast.fix_missing_locations(R().visit(fn))
 CONDS = {
     "cnt >= len(%s)" % PCR: ".cntGeLen",
     "self._wn.sim_time - backtrack < %s" % RT: ".beforeRule",
@@ -230,6 +299,7 @@ def write_presolve_shape():
         tree = ast.parse(open(path).read())
         cls = next(n for n in tree.body if isinstance(n, ast.ClassDef) and n.name == "WNTRSimulator")
         fn = next(n for n in cls.body if isinstance(n, ast.FunctionDef) and n.name == "_compute_next_timestep_and_run_presolve_controls_and_rules")
+        fn = _alpha_rename(fn)
         pro, loop_cond, body = [], None, None
         for st in _strip(fn.body):
             txt = ast.unparse(st)
@@ -242,8 +312,10 @@ def write_presolve_shape():
                 body = sched_block(st.body, "  ")
             elif txt in PRO:
                 pro.append(PRO[txt])
+            elif txt == FIRST_ZERO_ELSE_CLAMP:
+                pro.append(".firstStepZeroElseClamp")
             elif txt == FIRST_ZERO:
-                pro.append(".firstStepZero")
+                raise Untranslatable("the first-step override without the clamp of the other backtracks into the step (shape before /repo 7d8c4ce1) is refused")
             else:
                 raise Untranslatable("prologue statement `%s`" % txt.splitlines()[0])
         if loop_cond is None:
